@@ -38,13 +38,13 @@ def rule_open(ctx):
         for val, g, b, bb in ws:
             ctx.touch(b)
             if fn == 'open':
-                ctx.check('open', 'open-sets-some-when-none', val.startswith('Option::Some{') and 'is_none(self.%s)' % h in g, (b, bb), 'open: %s under %s' % (val[:60], g))
+                ctx.check('open', 'open-sets-some-when-none', val.startswith('Option::Some{') and 'self.%s is None' % h in g, (b, bb), 'open: %s under %s' % (val[:60], g))
             elif fn == 'close':
                 ctx.check('open', 'close-sets-none', val == 'Option::None{}', (b, bb), 'close: %s' % val)
     op = prog.one('BlkFile::open')
     callers = prog.callers_of(op)
     ctx.check('open', 'open-only-from-read_block', len(callers) == 1 and callers[0].body.path.endswith('BlkFile::read_block'), op, 'callers of open: %s' % [c.body.path for c in callers])
-    ctx.check('open', 'open-returns-handle', canon(op.ret_expr()).endswith('Result::Ok{0: unwrap(self.%s)})' % h) or 'Result::Ok{0: unwrap(self.%s)}' % h in canon(op.ret_expr()), op, 'open returns the stored handle')
+    ctx.check('open', 'open-returns-handle', 'Result::Ok{0: self.%s?}' % h in canon(op.ret_expr()), op, 'open returns the stored handle')
     nw = prog.one('BlkFile::new')
     ctx.check('open', 'constructed-closed', '%s: Option::None{}' % h in canon(nw.ret_expr()), nw, canon(nw.ret_expr()))
     # the file handle opened is this file's path
@@ -76,7 +76,7 @@ def rule_close(ctx):
               bad_detail='close is guarded by %s; required: height >= (or ==) the highest height stored in this file — with `>` the file is never closed at its last block' % rel)
     ctx.check('close', 'after-successful-read', g.dominates(rd.bb, cl.bb) and any('read_block(' in x and 'is Ok' in x for x in gd), cl, 'close happens after the read succeeded')
     # every path from read-Ok to Ok(Some) passes the decision
-    okb = [d[1] for d in g.defs().get(0, []) if d[0] == 'assign' and canon(g.rvalue_expr(d[3])).startswith('Result::Ok{0: Option::Some')]
+    okb = [d[1] for d in g.ret_defs() if d[0] == 'assign' and canon(g.rvalue_expr(d[3])).startswith('Result::Ok{0: Option::Some')]
     dec = None
     for (src, dst), fs in g.edge_facts().items():
         for f in fs:
@@ -102,7 +102,7 @@ def rule_threshold(ctx):
     prog = ctx.prog
     acc = prog.one('ChainIndex::max_height_by_blk')
     ctx.touch(acc)
-    ctx.check('threshold', 'table-lookup-by-file', canon(acc.ret_expr()) == 'unwrap(get(self.max_height_blk_index, a2))', acc, canon(acc.ret_expr()))
+    ctx.check('threshold', 'table-lookup-by-file', canon(acc.ret_expr()) == 'get(self.max_height_blk_index, a2)?', acc, canon(acc.ret_expr()))
     n = prog.one('ChainIndex::new')
     ctx.touch(n)
     idx = 'get_block_index(join(a1.blockchain_dir, "index"))?'
@@ -123,18 +123,21 @@ def rule_threshold(ctx):
     kinds = []
     for t0, k0, v0, wbb, site in writes:
         tbl.add(t0)
-        ctx.check('threshold', 'keyed-by-records-file', k0 == '%s.1.blk_index' % it, site, 'table key = %s' % k0)
-        ctx.check('threshold', 'value-is-records-height', v0 == '%s.0' % it, site, 'table value = %s' % v0)
-        gd = [x for x in util.guards_at(n, wbb) if 'next(' not in x]
         curs = ['get(new(), %s.1.blk_index)?' % it, 'get_mut(new(), %s.1.blk_index)?' % it]
-        if any(x.endswith(' is None') for x in gd):
-            kinds.append('init')
-        elif any(x in ('%s < %s.0' % (cur, it), 'gt(%s.0, %s)' % (it, cur)) for x in gd for cur in curs):
-            kinds.append('max')
-        elif any(x in ('%s.0 < %s' % (it, cur), 'lt(%s.0, %s)' % (it, cur)) for x in gd for cur in curs):
-            kinds.append('min')
-        else:
-            kinds.append('other:%s' % gd)
+        # one kind per path into the write (a single insert reached from "absent" and from "larger" counts as both)
+        for gset in util.path_guard_sets(n, wbb):
+            gd = [x for x in gset if 'next(' not in x]
+            if any(x.endswith(' is None') for x in gd):
+                kind = 'init'
+            elif any(x in ('%s < %s.0' % (cur, it), 'gt(%s.0, %s)' % (it, cur)) for x in gd for cur in curs):
+                kind = 'max'
+            elif any(x in ('%s.0 < %s' % (it, cur), 'lt(%s.0, %s)' % (it, cur)) for x in gd for cur in curs):
+                kind = 'min'
+            else:
+                kind = 'other:%s' % gd
+            kinds.append(kind)
+            ctx.check('threshold', 'keyed-by-records-file', k0 == '%s.1.blk_index' % it, site, 'table key = %s (%s path)' % (k0, kind.split(':')[0]))
+            ctx.check('threshold', 'value-is-records-height', v0 == '%s.0' % it, site, 'table value = %s (%s path)' % (v0, kind.split(':')[0]))
     fold = 'max' if sorted(kinds) == ['init', 'max'] else ('min' if sorted(kinds) == ['init', 'min'] else 'other')
     ctx.check('threshold', 'fold-kind', fold in ('max', 'min'), n, 'table is a %s-fold over the heights stored in each file (%s)' % (fold, kinds))
     # combination with the decision polarity
@@ -151,7 +154,7 @@ def rule_threshold(ctx):
     ret = [cs for cs in n.calls if mir.method_name(cs.name) == 'retain']
     okb = bool(ret) and all(n.dominates(w[3], ret[0].bb) or not n.path_exists(ret[0].bb, [w[3]]) for w in writes)
     ctx.check('threshold', 'folded-before-trimming', okb, n, 'the fold runs over the full index, before retain()')
-    ctx.check('threshold', 'two-insert-sites', len(writes) == 2, n, '%d table write sites' % len(writes))
+    ctx.check('threshold', 'two-insert-sites', len(kinds) == 2 and 1 <= len(writes) <= 2, n, '%d table write site(s) reached on %d path(s)' % (len(writes), len(kinds)))
 
 
 def run(ctx):
